@@ -26,6 +26,29 @@ func eqRecord(rec string) interface{} {
 		return map[string]interface{}{"k": map[string]interface{}{"n": []byte{1, 2}}}
 	case "f":
 		return map[string]interface{}{}
+	// pairs that differ only in ways a hand-written comparison tends to overlook
+	case "g": // a nil-valued key ...
+		return map[string]interface{}{"msg": "x", "user": nil}
+	case "h": // ... a different nil-valued key ...
+		return map[string]interface{}{"msg": "x", "host": nil}
+	case "i": // ... and no such key at all
+		return map[string]interface{}{"msg": "x"}
+	case "j":
+		return map[string]interface{}{"a": map[string]interface{}{"b": map[string]interface{}{"c": int64(1)}}}
+	case "m":
+		return map[string]interface{}{"a": map[string]interface{}{"b": map[string]interface{}{"c": int64(2)}}}
+	case "n":
+		return map[string]interface{}{"l": []interface{}{int64(1), int64(2)}}
+	case "o":
+		return map[string]interface{}{"l": []interface{}{int64(2), int64(1)}}
+	case "p":
+		return map[string]interface{}{"l": []interface{}{int64(1), int64(2), int64(3)}}
+	case "q":
+		return map[string]interface{}{"k": "1"}
+	case "r":
+		return map[string]interface{}{"k": int64(1)}
+	case "s":
+		return map[string]interface{}{"k": "v", "": nil}
 	default:
 		return map[string]interface{}{"other": rec}
 	}
@@ -66,6 +89,29 @@ func joinKeys(k []string) string {
 func genEQ(o *Out, r *Rng, n int, tier string) {
 	// exhaustive: all pairs of lists of length 0..L over 3 distinct entries
 	alpha := []string{"1.0.a", "1.0.b", "2.5.a"}
+	if tier == "thorough" || true {
+		// the same exhaustive sweep over entries that differ only subtly (nil-valued vs absent keys)
+		defer func() {
+			sub := []string{"1.0.g", "1.0.h", "1.0.i"}
+			var ls [][]string
+			var rec2 func(cur []string, l int)
+			rec2 = func(cur []string, l int) {
+				ls = append(ls, append([]string{}, cur...))
+				if l == 3 {
+					return
+				}
+				for _, a := range sub {
+					rec2(append(cur, a), l+1)
+				}
+			}
+			rec2(nil, 0)
+			for _, x := range ls {
+				for _, y := range ls {
+					o.emit("C20", "EQ", joinKeys(x), joinKeys(y))
+				}
+			}
+		}()
+	}
 	L := 4
 	var lists [][]string
 	var rec func(cur []string, l int)
@@ -85,7 +131,7 @@ func genEQ(o *Out, r *Rng, n int, tier string) {
 		}
 	}
 	// random longer lists over a wider alphabet, with shuffles and perturbations
-	recs := []string{"a", "b", "c", "d", "e", "f"}
+	recs := []string{"a", "b", "c", "d", "e", "f", "g", "h", "i", "j", "m", "n", "o", "p", "q", "r", "s"}
 	for i := 0; i < n; i++ {
 		ln := r.Intn(12)
 		if r.Chance(25) {
